@@ -497,6 +497,18 @@ vf_violations(void)
 	return atomic_load(&n_viol);
 }
 
+const char *
+vf_last_violation_key(void)
+{
+	const char *k = "";
+	pthread_mutex_lock(&rep_mtx);
+	if (n_viol_keys > 0) {
+		k = viol_keys[n_viol_keys - 1];
+	}
+	pthread_mutex_unlock(&rep_mtx);
+	return k;
+}
+
 void
 vf_harness_fail(const char *fmt, ...)
 {
